@@ -1,5 +1,5 @@
 BASELINE_OFF = "cd /repo && cargo nextest run --workspace --no-fail-fast --tool-config-file pb:/w/lib/nextest.toml --profile pb --test-threads 8 --offline || cargo test --workspace --no-fail-fast --offline"
-HOOK_COMMITS = ["6d7118e", "df1ad69", "2b138bf", "518397e"]
+HOOK_COMMITS = ["6d7118e", "df1ad69", "2b138bf", "518397e", "cc1de86"]
 NOTES = ("Single entry point ./check <id> --tier quick|thorough. Every check: (A) Coq theorems re-checked (make + pins with Print Assumptions, "
          "forbidden-vernacular grep), (B) translator-regenerated coq/gen and/or model-vs-implementation correspondence, (C) oracle on the "
          "implementation producing concrete replays; known findings in known_findings.json. See DESIGN.md.")
